@@ -144,7 +144,9 @@ func (s *Signature) decodeTimeAndTimeZone(b []byte) {
 	if err1 != nil || err2 != nil {
 		return
 	}
-	if tzhours < 0 {
+	// The sign belongs to the whole zone, not to the hours field: "-0030" is
+	// thirty minutes west although its hours parse as 0.
+	if timezone[0] == '-' {
 		tzmins *= -1
 	}
 
